@@ -251,6 +251,8 @@ type Query struct {
 	Nums    []int
 	Boss    *Keeper
 
+	// GoDirectives makes the schema bind Keeper and Cell with @go directives.
+	GoDirectives bool
 	// UseListResolver makes the interface strategy return ListResolver values
 	// instead of []interface{}.
 	UseListResolver bool
@@ -358,7 +360,7 @@ func (m *Mutation) Rename(old, new string) (*Keeper, error) {
 
 // GenZoo draws a data graph.
 func GenZoo(t *tape.Tape) *Query {
-	q := &Query{Title: "zoo" + strconv.Itoa(t.Draw(100)), Count: t.Draw(1000), Ratio: float64(t.Draw(100)) / 4, Flag: t.Bool(1, 2), Size: []string{"BIG", "SMALL"}[t.Draw(2)]}
+	q := &Query{GoDirectives: t.Bool(1, 3), Title: "zoo" + strconv.Itoa(t.Draw(100)), Count: t.Draw(1000), Ratio: float64(t.Draw(100)) / 4, Flag: t.Bool(1, 2), Size: []string{"BIG", "SMALL"}[t.Draw(2)]}
 	nk := 1 + t.Draw(4)
 	for i := 0; i < nk; i++ {
 		k := &Keeper{Name: "k" + strconv.Itoa(i), Age: 20 + t.Draw(50), Rank: []string{"BIG", "SMALL"}[t.Draw(2)], MottoS: "motto" + strconv.Itoa(i), q: q}
@@ -826,7 +828,14 @@ func NewZoo(q *Query, strat Strategy) (*Zoo, error) {
 		z.Root = ggql.NewRoot(&ANode{v: sch, path: []interface{}{}})
 		z.Root.AnyResolver = &ZooAny{Q: q, Wrap: true}
 	}
-	if err := z.Root.ParseString(ZooSDL); err != nil {
+	sdl := ZooSDL
+	if q.GoDirectives {
+		// bind two union members through the @go directive instead of by name
+		// (the other branch of metaCheck): full path + type name, and bare name
+		sdl = strings.Replace(sdl, "type Keeper {", "type Keeper @go(type: \"verif/workload.Keeper\") {", 1)
+		sdl = strings.Replace(sdl, "type Cell {", "type Cell @go(type: \"Cell\") {", 1)
+	}
+	if err := z.Root.ParseString(sdl); err != nil {
 		return nil, err
 	}
 	if strat == StratReflect {
